@@ -140,12 +140,6 @@ def gen_case(rng, stream: str) -> dict:
             prior[paths[0]] = ["U", "copy"]
         q = rng.choice([p for p in PATH_POOL if p not in prior] or ["dl"])
         prior[q] = ["A", "dangling"]
-        if "hardlink" in types:
-            # open(path, "w") of dvc_objects' empty-file hard link over an existing path is outside the model
-            for p in target:
-                if target[p] == "E":
-                    target[p] = "A"
-            cache.add("A")
     case["prior"] = None if absent and stream != "dangling" else prior
     case["target"] = target
     case["cache"] = sorted(cache)
@@ -243,25 +237,21 @@ def normalise(case: dict) -> dict:
                     seen_uncached_hard.add(cid)
             if not INCLUDE_DANGLING and (kind == "dangling" or (kind == "symlink" and cid not in case["cache"])):
                 prior[p] = [cid, "copy"]
-        unstageable = any(k == "dangling" or (k == "symlink" and c not in case["cache"]) for c, k in prior.values())
-        if unstageable and "hardlink" in case["types"] and not case.get("raw"):
-            # dvc_objects' empty-file "hard link" is open(path, "w"): over an existing path (possible only when
-            # the old tree could not be built) it writes through links.  Kept out of the model; see TRUNCATION_CASE.
-            for p in case["target"]:
-                if case["contents"][case["target"][p]] == "":
-                    case["target"][p] = "A"
-                    if "A" not in case["cache"]:
-                        case["cache"] = sorted(case["cache"] + ["A"])
     return case
 
 
-# oracle-only regression case (no model): with an unbuildable old tree, type hardlink and an empty target
-# object, open(path, "w") goes through an existing link and truncates the cache object behind it
-TRUNCATION_CASE = {
-    "stream": "dangling", "raw": True, "cls": "local", "types": ["hardlink"], "state": False, "relink": False,
-    "second": "plain", "force": False, "prompt": "none", "contents": dict(CONTENT_POOL),
-    "prior": {"a": ["A", "symlink"], "b.txt": ["B", "dangling"]}, "target": {"a": "E"}, "cache": ["A", "E"],
-}
+# regression inputs: with an unbuildable old tree every entry is ADD onto a possibly occupied path.  Since f4a117d
+# the path is first removed through the guard (refused when unforced); if that removal is skipped, type hardlink
+# with an EMPTY target object does open(path, "w"), which goes through a live link and truncates the cache object
+# behind it - and hardlink/symlink over an occupied path is silently skipped.
+TRUNCATION_CASES = [
+    {"stream": "dangling", "cls": cls, "types": ["hardlink"], "state": False, "relink": False,
+     "second": "plain", "force": force, "prompt": "none",
+     "prior": {"a": ["A", "symlink"], "b.txt": ["B", "dangling"], "sub/c": ["B", "copy"]},
+     "target": {"a": "E", "sub/c": "A"}, "cache": ["A", "E"]}
+    for cls, force in (("local", False), ("local", True), ("base", True))
+]
+TRUNCATION_CASE = TRUNCATION_CASES[0]
 
 
 # ------------------------------------------------------------------------------------------
@@ -739,6 +729,14 @@ def run_case(ctx, case):
     all_cached = all(md5hex(b) in c0 for b in tgt_bytes.values())
     in_quant = case["force"] and all_cached and bool(links)
     tagq = ":old-tree-build-failed" if dangling else ""
+    if in_quant and dangling:
+        # without an old tree nothing is deleted or relinked (the known finding), but every TARGET path is still
+        # (guard-)removed and linked afresh: it must hold the target's bytes
+        bad = [rel for rel, b in tgt_bytes.items() if rel not in ws1 or ws1[rel]["bytes"] != b]
+        if bad:
+            res["c10"].append(("C10:target-path-wrong:unbuildable-old-tree",
+                               f"forced checkout over a workspace with a dangling link ({out1}): target paths {sorted(bad)} "
+                               f"are missing or do not hold the target's bytes"))
     if in_quant:
         if out1[0] not in ("none", "ret"):
             res["c10"].append(("C10:forced-checkout-failed" + tagq, f"forced checkout of a cached target raised {out1}"))
@@ -800,7 +798,7 @@ def run_case(ctx, case):
     if dangling:
         # one family, one signature: with a dangling link in the workspace the old tree cannot be built,
         # nothing is deleted or relinked and the saved record covers the target's keys only
-        res["c10"] = [((sig if sig.startswith("C10:cache-bytes-changed") else "C10:does-not-converge:old-tree-build-failed"), what)
+        res["c10"] = [((sig if sig.startswith(("C10:cache-bytes-changed", "C10:target-path-wrong")) else "C10:does-not-converge:old-tree-build-failed"), what)
                       for sig, what in res["c10"]]
     if pre:
         res["tags"].append("prelude:" + ("fetched" if pre.get("missing") else "reconfigured"))
